@@ -790,7 +790,8 @@ func runPackStream(o *Opts) {
 		inTree := []string{"a", "sub/a", "./a", "nothing", "sub", "."}
 		outTree := []string{"%s..", "%s../src/..", "%s../src/a", "%s../src/sub", "%s../src-sib/secret", "%s../src-sib", "%s../outside/f", "%s../outside/d",
 			"/w/src/a", "/w/outside/d", "/w/outside/f", "/secret", "%s../outside/chain", "%s../outside/back", "%s../outside/backd", "%s../other/outside/f",
-			"%s../outside/hollow", "%s../oalias/f", "%s../../secret", "%s../outside/dl/../f", "%s../SRC/a", "%s../Outside/f"}
+			"%s../outside/hollow", "%s../oalias/f", "%s../../secret", "%s../outside/dl/../f", "%s../SRC/a", "%s../Outside/f",
+			"/w/outside/d/", "/w/outside/./d", "/w/outside//d", "/w/outside/d/../d", "/w/outside/f/", "%s../outside/d/", "%s..//outside/./d"}
 		for depth := 0; depth < 2; depth++ {
 			up := strings.Repeat("../", depth)
 			var tmpl []string
